@@ -169,6 +169,17 @@ def run(chk, repo, tier):
         plain = g.get(False, []) + g.get(None, [])
         if case == (0, True) or not norm or not plain:
             continue          # piston is the mask itself on either path
+        if not g.get(True) and not g.get(False) and not any(('sym', nm) in nf.value_atoms(q_.ret) for q_ in g.get(None, [])):
+            # the flag is not consulted at all for this case: normalised and un-normalised modes come out the same although
+            # they differ by sqrt(n+1) or sqrt(2(n+1))
+            m_zero = case[0] == 0
+            n_pairs += 1
+            chk.ob('C11-c', 'N-sibling', f.key,
+                   f'normalisation factor [{"m = 0" if m_zero else ("m > 0" if case[0] > 0 else "m < 0")}, '
+                   f'{"rho given" if none_state(g[None][0], "rho") is False else "default coordinates"}]', False,
+                   f'`normalize` does not take part in any condition of this case: the result is {fmt(g[None][0].ret)[:120]} whatever '
+                   f'the flag says', f.loc(g[None][0].node))
+            continue
         for pa in norm[:1]:
             for pb in plain[:1]:
                 if pa is pb:
